@@ -147,9 +147,27 @@ func Fresh(prefix, sort string) *Term {
 	return Const(fmt.Sprintf("%s!%d", prefix, P.fresh[prefix]), sort)
 }
 
+var boundByID = map[int]*Term{}
+
 func BoundVar(prefix, sort string) *Term {
 	P.fresh["bv:"+prefix]++
-	return P.mk("bound", fmt.Sprintf("%s?%d", prefix, P.fresh["bv:"+prefix]), sort, nil, nil)
+	t := P.mk("bound", fmt.Sprintf("%s?%d", prefix, P.fresh["bv:"+prefix]), sort, nil, nil)
+	boundByID[t.id] = t
+	return t
+}
+
+// closeOver universally quantifies the bound variables occurring free in f.
+func closeOver(f *Term) *Term {
+	if !f.hasBound {
+		return f
+	}
+	var vs []*Term
+	for _, id := range f.free {
+		if v := boundByID[id]; v != nil {
+			vs = append(vs, v)
+		}
+	}
+	return Forall(vs, f)
 }
 
 // UF applies an uninterpreted function (declared on first use).
